@@ -1,4 +1,4 @@
-SPECIFICATION Spec
+SPECIFICATION GenSpec
 CONSTANTS
   Sender = {"s1", "s2"}
   MaxNonce = 3
@@ -8,7 +8,7 @@ CONSTANTS
   BiName = "payFees"
   Class = {"ok", "fail", "stale", "sc", "bi"}
   MaxPool = 6
-  FilterBuiltins = FALSE
+  FilterBuiltins = TRUE
   Txn <- GenTxn
 INVARIANT GPrint
 CHECK_DEADLOCK FALSE
